@@ -260,3 +260,8 @@ CHECKS["C13"] = ParserCheck()
 from harness.checks_utils import UtilsCheck  # noqa: E402
 
 CHECKS["C19"] = UtilsCheck()
+
+
+from harness.checks_stub import StubCheck  # noqa: E402
+
+CHECKS["C20"] = StubCheck()
